@@ -1,5 +1,6 @@
 import PersimVerif.Lemmas.LandscapeCell
 import PersimVerif.Lemmas.LandscapeSweepTotal
+import PersimVerif.Lemmas.SweepDistinct
 import Mathlib.Algebra.Order.Field.Rat
 import Mathlib.Algebra.Order.Ring.Abs
 
@@ -27,7 +28,11 @@ Theorems (all full strength, none `_partial`):
 * known finding: `shortcut_model_output`, `known_landscape_value`, `shortcut_counterexample`,
   `certify_rejects_shortcut_output`, `noShortcut_on_known`;
 * the sweep for every diagram: `sweep_returns`, `sweepNoShortcut_correct`, `sweep_correct_of_not_fired`,
-  `exact_correct_of_not_fired`.
+  `exact_correct_of_not_fired`;
+* trace-free conditions on the INPUT under which the shortcut cannot fire, hence unconditional correctness of
+  the model of the current code there: `sweep_fired_zero_of_distinct_births`, `sweep_correct_of_distinct_births`,
+  `exact_correct_of_distinct_births`, `sweep_fired_zero_of_distinct_deaths`, `sweep_correct_of_distinct_deaths`,
+  `exact_correct_of_distinct_deaths`; and `distinct_bars_not_enough` (pairwise distinct *bars* do not suffice).
 What is *not* a theorem: that the real Python code equals the model (sampled correspondence, every run),
 and anything about float rounding.
 -/
@@ -341,6 +346,69 @@ theorem exact_correct_of_not_fired (dgms : List (List (K × Option K))) (h : Int
   refine ⟨o, ?_, fun hf => (hc hf).2⟩
   simp [exact, hsel, ho]
 
+/-! #### inputs on which the shortcut cannot fire (conditions on the diagram, not on the trace)
+
+`sweep_correct_of_not_fired` is conditional on the run (`o.fired = 0`).  The two conditions below are on the
+input alone.  Births: the births of the work list never gain a value (the sort permutes, pops remove, Case III
+re-inserts `(b', d)` with the birth of the bar it has just popped), so they stay pairwise distinct and the bar
+at the front of the list never equals the bar just popped.  Deaths: the same for the deaths of
+`current bar :: work list` (Case III swaps the two deaths involved).  Proofs: `Lemmas/SweepDistinct.lean`. -/
+
+/-- **`sweep_fired_zero_of_distinct_births`**: for every finite diagram whose births are pairwise distinct
+    (any number of bars, any order, nested / touching / equal deaths; positive length is not needed here), the
+    repeated-bar shortcut of the model of the *current* code never fires -/
+theorem sweep_fired_zero_of_distinct_births (bars : List (K × K)) (hb : (bars.map Prod.fst).Nodup) :
+    ∀ o, sweep bars = some o → o.fired = 0 :=
+  fun _ ho => sweep_fired_of_births_nodup hb ho
+
+/-- **`sweep_correct_of_distinct_births`**: for every finite diagram with bars of positive length and pairwise
+    distinct births, the model of the *current* code (shortcut included) returns, its shortcut does not fire,
+    and its critical points are well formed and equal the landscape at every `t` and every depth `k` —
+    no condition on the trace -/
+theorem sweep_correct_of_distinct_births (bars : List (K × K)) (hpos : ∀ p ∈ bars, p.1 < p.2)
+    (hb : (bars.map Prod.fst).Nodup) :
+    ∃ o, sweep bars = some o ∧ o.fired = 0 ∧ (∀ c ∈ o.cps, wellFormed c = true) ∧
+      ∀ k t, evalDepth o.cps k t = landscape bars k t := by
+  obtain ⟨o, ho, hc⟩ := sweep_correct_of_not_fired bars hpos
+  have hf := sweep_fired_zero_of_distinct_births bars hb o ho
+  exact ⟨o, ho, hf, (hc hf).1, (hc hf).2⟩
+
+/-- the same for the whole constructor: selection by `hom_deg`, trailing infinite bar removed, sweep -/
+theorem exact_correct_of_distinct_births (dgms : List (List (K × Option K))) (h : Int) (bars : List (K × K))
+    (hsel : selectBars dgms h = .ok bars) (hpos : ∀ p ∈ bars, p.1 < p.2) (hb : (bars.map Prod.fst).Nodup) :
+    ∃ o, exact dgms h = .ok o ∧ o.fired = 0 ∧ (∀ c ∈ o.cps, wellFormed c = true) ∧
+      ∀ k t, evalDepth o.cps k t = landscape bars k t := by
+  obtain ⟨o, ho, hf, hwf, hc⟩ := sweep_correct_of_distinct_births bars hpos hb
+  refine ⟨o, ?_, hf, hwf, hc⟩
+  simp [exact, hsel, ho]
+
+/-- **`sweep_fired_zero_of_distinct_deaths`**: for every finite diagram whose deaths are pairwise distinct
+    (any number of bars, any order, nested / touching / equal births; positive length is not needed here), the
+    repeated-bar shortcut of the model of the *current* code never fires -/
+theorem sweep_fired_zero_of_distinct_deaths (bars : List (K × K)) (hd : (bars.map Prod.snd).Nodup) :
+    ∀ o, sweep bars = some o → o.fired = 0 :=
+  fun _ ho => sweep_fired_of_deaths_nodup hd ho
+
+/-- **`sweep_correct_of_distinct_deaths`**: for every finite diagram with bars of positive length and pairwise
+    distinct deaths, the model of the *current* code (shortcut included) returns, its shortcut does not fire,
+    and its critical points are well formed and equal the landscape at every `t` and every depth `k` -/
+theorem sweep_correct_of_distinct_deaths (bars : List (K × K)) (hpos : ∀ p ∈ bars, p.1 < p.2)
+    (hd : (bars.map Prod.snd).Nodup) :
+    ∃ o, sweep bars = some o ∧ o.fired = 0 ∧ (∀ c ∈ o.cps, wellFormed c = true) ∧
+      ∀ k t, evalDepth o.cps k t = landscape bars k t := by
+  obtain ⟨o, ho, hc⟩ := sweep_correct_of_not_fired bars hpos
+  have hf := sweep_fired_zero_of_distinct_deaths bars hd o ho
+  exact ⟨o, ho, hf, (hc hf).1, (hc hf).2⟩
+
+/-- the same for the whole constructor -/
+theorem exact_correct_of_distinct_deaths (dgms : List (List (K × Option K))) (h : Int) (bars : List (K × K))
+    (hsel : selectBars dgms h = .ok bars) (hpos : ∀ p ∈ bars, p.1 < p.2) (hd : (bars.map Prod.snd).Nodup) :
+    ∃ o, exact dgms h = .ok o ∧ o.fired = 0 ∧ (∀ c ∈ o.cps, wellFormed c = true) ∧
+      ∀ k t, evalDepth o.cps k t = landscape bars k t := by
+  obtain ⟨o, ho, hf, hwf, hc⟩ := sweep_correct_of_distinct_deaths bars hpos hd
+  refine ⟨o, ?_, hf, hwf, hc⟩
+  simp [exact, hsel, ho]
+
 end Sweep
 
 /-- non-vacuity: bars of positive length … -/
@@ -353,5 +421,57 @@ example : selectBars (α := ℚ) [[(9, some 10)], [(0, some 6), (0, some 4), (2,
 /-- … nested, touching, equal-birth and equal-death bars on which the shortcut does not fire -/
 example : (sweep (α := ℚ) [(0, 6), (0, 4), (2, 6), (1, 5), (6, 8)]).map (fun o => o.fired) = some 0 := by
   decide +kernel
+
+/-! ### non-vacuity and necessity of the distinct-births / distinct-deaths conditions -/
+
+/-- hypotheses of `sweep_correct_of_distinct_births`: six bars, nested (`(1,4)` in `(0,6)`, `(3,5)` in `(2,6)`),
+    touching (`(0,6)`, `(6,8)`), equal deaths (`6` twice, `8` twice), births pairwise distinct … -/
+example : (∀ p ∈ ([(0, 6), (1, 4), (2, 6), (3, 5), (6, 8), (4, 8)] : List (ℚ × ℚ)), p.1 < p.2) ∧
+    (([(0, 6), (1, 4), (2, 6), (3, 5), (6, 8), (4, 8)] : List (ℚ × ℚ)).map Prod.fst).Nodup ∧
+    ¬ (([(0, 6), (1, 4), (2, 6), (3, 5), (6, 8), (4, 8)] : List (ℚ × ℚ)).map Prod.snd).Nodup := by decide
+
+/-- … and the conclusion seen on it through the executable model and the checker -/
+example : (sweep (α := ℚ) [(0, 6), (1, 4), (2, 6), (3, 5), (6, 8), (4, 8)]).map
+    (fun o => (o.fired, certify [(0, 6), (1, 4), (2, 6), (3, 5), (6, 8), (4, 8)] o.cps)) = some (0, true) := by
+  decide +kernel
+
+/-- hypotheses of `sweep_correct_of_distinct_deaths`: six bars, nested, touching, equal births (`0` twice, `2`
+    twice), deaths pairwise distinct … -/
+example : (∀ p ∈ ([(0, 6), (0, 4), (2, 7), (1, 5), (6, 8), (2, 3)] : List (ℚ × ℚ)), p.1 < p.2) ∧
+    (([(0, 6), (0, 4), (2, 7), (1, 5), (6, 8), (2, 3)] : List (ℚ × ℚ)).map Prod.snd).Nodup ∧
+    ¬ (([(0, 6), (0, 4), (2, 7), (1, 5), (6, 8), (2, 3)] : List (ℚ × ℚ)).map Prod.fst).Nodup := by decide
+
+example : (sweep (α := ℚ) [(0, 6), (0, 4), (2, 7), (1, 5), (6, 8), (2, 3)]).map
+    (fun o => (o.fired, certify [(0, 6), (0, 4), (2, 7), (1, 5), (6, 8), (2, 3)] o.cps)) = some (0, true) := by
+  decide +kernel
+
+/-- the hypotheses are needed: the diagram of the known finding (`shortcut_counterexample`) has a repeated
+    bar, hence neither births nor deaths pairwise distinct -/
+example : ¬ (knownBars.map Prod.fst).Nodup ∧ ¬ (knownBars.map Prod.snd).Nodup := by decide
+
+/-- a diagram with pairwise distinct *bars* but a repeated birth (and a repeated death) -/
+def repeatedBirthBars : List (ℚ × ℚ) := [(0, 4), (2, 6), (2, 4), (3, 5)]
+
+/-- **`distinct_bars_not_enough`**: pairwise distinct *bars* do not exclude the shortcut.  On
+    `[(0,4),(2,6),(2,4),(3,5)]` the Case-III residual `(2,4)` of `(2,6)` under `(0,4)` duplicates the original bar
+    `(2,4)`; the shortcut fires once, `(3,5)` is processed only once although two passes are copied, and the
+    model of the current code returns `1` at depth index 2, `t = 4`, where the landscape is `0` -/
+theorem distinct_bars_not_enough :
+    repeatedBirthBars.Nodup ∧ (∀ p ∈ repeatedBirthBars, p.1 < p.2) ∧
+      ∃ o, sweep repeatedBirthBars = some o ∧ o.fired = 1 ∧
+        evalDepth o.cps 2 4 = 1 ∧ landscape repeatedBirthBars 2 4 = 0 := by
+  refine ⟨by decide, by decide, ?_⟩
+  have h : (sweep repeatedBirthBars).map (fun o => (o.fired, evalDepth o.cps 2 4)) = some (1, 1) := by
+    decide +kernel
+  have hl : landscape repeatedBirthBars 2 4 = 0 := by
+    have hp : [((2:ℚ), (6:ℚ)), (3, 5), (0, 4), (2, 4)].Perm repeatedBirthBars := by decide
+    rw [landscape_eq_of_order hp 4 (by decide +kernel) 2]
+    decide +kernel
+  cases hs : sweep repeatedBirthBars with
+  | none => rw [hs] at h; simp at h
+  | some o =>
+    rw [hs] at h
+    simp only [Option.map_some, Option.some.injEq, Prod.mk.injEq] at h
+    exact ⟨o, rfl, h.1, h.2, hl⟩
 
 end PersimVerif.C03
